@@ -1,4 +1,7 @@
 import Vinegar.Lemmas.PathsFs
+import Vinegar.Lemmas.PathsHandle
+import Vinegar.Lemmas.PathsCheck
+import Vinegar.Theorems.C06
 /-
 C04 — file serving is confined to the configured root directory or file.
 
@@ -189,50 +192,6 @@ theorem openPath_content_iff (fs : Node) (p c : Str) :
   · simp
   · exact walk_content_iff _ _ _
 
-/-- every way `_handle` can end, in closed form -/
-theorem handleCore_cases (h : Handler) (env : Env) (ctx : Ctx) :
-    ((handleLookup h env ctx).result = none ∧
-      handleCore h env ctx = { calls := (handleLookup h env ctx).calls, opens := [], outcome := .internalError }) ∨
-    (∃ sid data, (handleLookup h env ctx).result = some (sid, data) ∧ accessAllowed h env sid data = false ∧
-      handleCore h env ctx = { calls := (handleLookup h env ctx).calls, opens := [], outcome := .forbidden }) ∨
-    (∃ sid data, (handleLookup h env ctx).result = some (sid, data) ∧ accessAllowed h env sid data = true ∧
-      (targetFile h ctx = none ∨ (h.extract && h.cfg.noResultAction != continueAction && sid.isNone) = true) ∧
-      handleCore h env ctx = { calls := (handleLookup h env ctx).calls, opens := [], outcome := .notFound }) ∨
-    (∃ sid data q, (handleLookup h env ctx).result = some (sid, data) ∧ accessAllowed h env sid data = true ∧
-      targetFile h ctx = some q ∧ (∀ c, openPath env.fs q ≠ .content c) ∧
-      handleCore h env ctx = { calls := (handleLookup h env ctx).calls, opens := [q], outcome := .notFound }) ∨
-    (∃ sid data q c, (handleLookup h env ctx).result = some (sid, data) ∧ accessAllowed h env sid data = true ∧
-      targetFile h ctx = some q ∧ openPath env.fs q = .content c ∧
-      handleCore h env ctx = { calls := (handleLookup h env ctx).calls, opens := [q], outcome := (Outcome.served q c
-        (if h.cfg.template then some { id := sid, data := data.map (·.token) } else none)) }) := by
-  unfold handleCore
-  simp only []
-  cases hr : (handleLookup h env ctx).result with
-  | none => left; exact ⟨rfl, rfl⟩
-  | some sd =>
-    obtain ⟨sid, data⟩ := sd
-    right
-    cases ha : accessAllowed h env sid data with
-    | false => left; exact ⟨sid, data, rfl, ha, by simp [ha]⟩
-    | true =>
-      right
-      by_cases hc : (h.extract && h.cfg.noResultAction != continueAction && sid.isNone) = true
-      · left; exact ⟨sid, data, rfl, ha, Or.inr hc, by simp only [ha, hc]; rfl⟩
-      · have hc' : (h.extract && h.cfg.noResultAction != continueAction && sid.isNone) = false := by
-          exact Bool.eq_false_iff.mpr hc
-        cases ht : targetFile h ctx with
-        | none => left; exact ⟨sid, data, rfl, ha, Or.inl rfl, by simp only [ha, hc']; rfl⟩
-        | some q =>
-          right
-          cases ho : openPath env.fs q with
-          | content c =>
-            right
-            exact ⟨sid, data, q, c, rfl, ha, rfl, ho, by simp only [ha, hc', ho]; rfl⟩
-          | enoent => left; exact ⟨sid, data, q, rfl, ha, rfl, by simp [ho], by simp only [ha, hc', ho]; rfl⟩
-          | enotdir => left; exact ⟨sid, data, q, rfl, ha, rfl, by simp [ho], by simp only [ha, hc', ho]; rfl⟩
-          | eisdir => left; exact ⟨sid, data, q, rfl, ha, rfl, by simp [ho], by simp only [ha, hc', ho]; rfl⟩
-          | enametoolong => left; exact ⟨sid, data, q, rfl, ha, rfl, by simp [ho], by simp only [ha, hc', ho]; rfl⟩
-
 /-- **Only the translated path is ever opened or rendered**: every path `_handle` gives to
     `open` / to the template engine is the one target of the request — `_translate_path` of the
     remaining path in directory mode, the configured file in file mode. -/
@@ -247,7 +206,7 @@ theorem opens_only_translated (h : Handler) (env : Env) (method : Str) (ctx : Ct
     split at hp
     · simp at hp
     · rcases handleCore_cases h env ctx with ⟨_, hc⟩ | ⟨_, _, _, _, hc⟩ | ⟨_, _, _, _, _, hc⟩ |
-        ⟨_, _, q, _, _, ht, _, hc⟩ | ⟨_, _, q, _, _, _, ht, _, hc⟩ <;> rw [hc] at hp <;> simp at hp
+        ⟨_, _, q, _, _, _, ht, _, hc⟩ | ⟨_, _, q, _, _, _, _, ht, _, hc⟩ <;> rw [hc] at hp <;> simp at hp
       · rw [ht, hp]
       · rw [ht, hp]
   · intro hd; simp [targetFile, hd]
@@ -265,7 +224,7 @@ theorem nonregular_not_found (h : Handler) (env : Env) (ctx : Ctx)
     ∃ p c tc, (handleCore h env ctx).outcome = .served p c tc ∧ targetFile h ctx = some p ∧
       regularFile env.fs p = some c ∧ (handleCore h env ctx).opens = [p] := by
   rcases handleCore_cases h env ctx with ⟨hr, _⟩ | ⟨_, _, _, _, hc⟩ | ⟨_, _, _, _, _, hc⟩ |
-      ⟨_, _, q, _, _, ht, _, hc⟩ | ⟨_, _, q, c, _, _, ht, ho, hc⟩
+      ⟨_, _, q, _, _, _, ht, _, hc⟩ | ⟨_, _, q, c, _, _, _, ht, ho, hc⟩
   · exact absurd hr hl
   · left; rw [hc]
   · right; left; rw [hc]
@@ -290,7 +249,7 @@ theorem unauthorised_or_unmatched_opens_nothing (h : Handler) (env : Env) (metho
       (handleCore h env ctx).outcome ≠ .methodNotAllowed := by
     intro ctx
     rcases handleCore_cases h env ctx with ⟨_, hc⟩ | ⟨_, _, _, _, hc⟩ | ⟨_, _, _, _, _, hc⟩ |
-      ⟨_, _, q, _, _, _, _, hc⟩ | ⟨_, _, q, c, _, _, _, _, hc⟩ <;> rw [hc] <;> simp
+      ⟨_, _, q, _, _, _, _, _, hc⟩ | ⟨_, _, q, c, _, _, _, _, _, hc⟩ <;> rw [hc] <;> simp
   refine ⟨?_, ?_, ?_, ?_⟩
   · intro ha
     unfold requestOn RequestObs.seen at ha ⊢
@@ -326,5 +285,221 @@ theorem unauthorised_or_unmatched_opens_nothing (h : Handler) (env : Env) (metho
     · rw [hc]; simp
     all_goals (rw [hr] at hr'; simp only [Option.some.injEq, Prod.mk.injEq] at hr'; obtain ⟨rfl, rfl⟩ := hr';
                rw [ha] at ha'; simp at ha')
+
+/-! ### the checker of the specification accepts every observation of the model -/
+
+theorem setup_request_eq (h : Handler) (req : Str) :
+    prepare h req = prepareContext h ((setupOf h).request req) := rfl
+
+theorem safeSeg_append (a sfx : Str) (ha : safeSeg a = true) (h1 : '/' ∉ sfx) (h2 : '\x00' ∉ sfx) :
+    safeSeg (a ++ sfx) = true := by
+  rw [safeSeg_iff] at ha ⊢
+  obtain ⟨hne, hd, hdd, hn, hs⟩ := ha
+  refine ⟨by simp [hne], ?_, ?_, by simp [hn, h2], by simp [hs, h1]⟩
+  · intro e
+    cases a with
+    | nil => exact hne rfl
+    | cons c a' =>
+      simp only [dot, List.cons_append, List.cons.injEq, List.append_eq_nil_iff] at e
+      exact hd (by rw [e.1, e.2.1]; rfl)
+  · intro e
+    cases a with
+    | nil => exact hne rfl
+    | cons c a' =>
+      simp only [dotdot, List.cons_append, List.cons.injEq] at e
+      cases a' with
+      | nil => exact hd (by rw [e.1]; rfl)
+      | cons c' a'' =>
+        simp only [List.cons_append, List.cons.injEq, List.append_eq_nil_iff] at e
+        exact hdd (by rw [e.1, e.2.1, e.2.2.1]; rfl)
+
+theorem all_safe_join_suffix (segs : List Str) (sfx : Str) (hne : segs ≠ [])
+    (hs : ∀ s ∈ segs, safeSeg s = true) (h1 : '/' ∉ sfx) (h2 : '\x00' ∉ sfx) :
+    ∀ x ∈ splitOn '/' (joinWith ['/'] segs ++ sfx), safeSeg x = true := by
+  induction segs with
+  | nil => exact absurd rfl hne
+  | cons a rest ih =>
+    have ha := hs a (by simp)
+    cases rest with
+    | nil =>
+      simp only [joinWith]
+      have hsl : '/' ∉ a ++ sfx := by
+        simp only [List.mem_append, not_or]; exact ⟨((safeSeg_iff a).mp ha).2.2.2.2, h1⟩
+      rw [splitOn_no_sep '/' _ hsl]
+      intro x hx; simp at hx; subst hx
+      exact safeSeg_append a sfx ha h1 h2
+    | cons b t =>
+      rw [joinWith_cons_cons]
+      have : a ++ ['/'] ++ joinWith ['/'] (b :: t) ++ sfx = a ++ '/' :: (joinWith ['/'] (b :: t) ++ sfx) := by simp
+      rw [this, splitOn_append_sep, splitOn_no_sep '/' a ((safeSeg_iff a).mp ha).2.2.2.2]
+      intro x hx
+      simp only [List.cons_append, List.nil_append, List.mem_cons] at hx
+      rcases hx with rfl | hx
+      · exact ha
+      · exact ih (by simp) (fun s m => hs s (List.mem_cons_of_mem _ m)) x hx
+
+/-- a translated path lies below the root in the sense of the checker -/
+theorem below_of_translate (root sfx e p : Str) (hroot : AbsNormal root) (h1 : '/' ∉ sfx) (h2 : '\x00' ∉ sfx)
+    (h : translatePath root sfx e = some p) : below root p = true := by
+  obtain ⟨segs, _, hne, hsafe, rfl⟩ := translate_confined root sfx e p hroot h
+  unfold below
+  rw [Bool.and_eq_true]
+  constructor
+  · rw [List.isPrefixOf_iff_prefix]
+    exact ⟨joinWith ['/'] segs ++ sfx, by simp⟩
+  · have : (root ++ '/' :: joinWith ['/'] segs ++ sfx).drop (root.length + 1) = joinWith ['/'] segs ++ sfx := by
+      have : root ++ '/' :: joinWith ['/'] segs ++ sfx = (root ++ ['/']) ++ (joinWith ['/'] segs ++ sfx) := by simp
+      rw [this, List.drop_left' (by simp)]
+    rw [this, List.all_eq_true]
+    exact all_safe_join_suffix segs sfx hne hsafe h1 h2
+
+/-- for an accepted request the one path the checker allows is the model's target -/
+theorem allowedTarget_eq (cfg : Cfg) (h : Handler) (hinit : initHandler cfg = .ok h) (req v : Str) (rest : List Str)
+    (hws : witnesses (setupOf h).requestPath (setupOf h).placeholder (setupOf h).fileMode ((setupOf h).request req)
+      = v :: rest)
+    (hroot : truthy cfg.file = false → AbsNormal (cfg.rootDir.getD [])) :
+    allowedTarget (setupOf h) req = targetFile h (prepare h req) := by
+  obtain ⟨dec, hmode, _⟩ := initHandler_ok cfg h hinit
+  have hcfg := dec.cfg_eq
+  have hv : v ∈ witnesses (setupOf h).requestPath (setupOf h).placeholder (setupOf h).fileMode
+      ((setupOf h).request req) := by rw [hws]; simp
+  obtain ⟨hnn, hw⟩ := (mem_witnesses _ _ _ _ _).mp hv
+  obtain ⟨extra, t, h1, h2, h3, h4⟩ := (witnessOK_iff _ _ _ _ _).mp hw
+  unfold allowedTarget
+  rw [hws]
+  simp only
+  cases hf : truthy cfg.file with
+  | true =>
+    have hd : h.dirMode = false := by
+      unfold Handler.dirMode; rw [hcfg]
+      cases hr : truthy cfg.rootDir <;> simp_all
+    have : (setupOf h).fileMode = true := by simp [setupOf, hcfg, hf]
+    simp only [this, if_true, targetFile, hd, Bool.false_eq_true, if_false, setupOf, hcfg, hf]
+    cases hfile : cfg.file with
+    | none => rw [hfile] at hf; simp [truthy] at hf
+    | some f => simp
+  | false =>
+    have hd : h.dirMode = true := by
+      unfold Handler.dirMode; rw [hcfg]
+      cases hr : truthy cfg.rootDir <;> simp_all
+    have hfm : (setupOf h).fileMode = false := by simp [setupOf, hcfg, hf]
+    have hn : hasNul ((setupOf h).request req) = false :=
+      (hasNul_false_iff _).mpr ((noNul_iff _).mp hnn)
+    rw [hfm] at h4
+    have hrp : (setupOf h).requestPath = cfg.requestPath := by simp [setupOf, hcfg]
+    rw [hrp] at h2 h4
+    have hextra := extraPath_spec cfg h dec hmode ((setupOf h).request req) hn hf (setupOf h).placeholder
+      (by simp [setupOf, hcfg]) v extra t h1 h2 (by rw [← decodedPath_eq]; exact h3) h4
+    have hex : extraOf (setupOf h).requestPath (setupOf h).placeholder
+        (decodedPath ((setupOf h).request req)) v = extra := by
+      unfold extraOf
+      rw [hrp, h2, h3]
+      simp
+    simp only [hfm, Bool.false_eq_true, if_false, hex, targetFile, hd, if_true]
+    rw [setup_request_eq, hextra]
+    simp only [Option.getD_some]
+    have : (setupOf h).root = h.cfg.rootDir.getD [] := by simp [setupOf, hcfg, hf]
+    rw [this, show (setupOf h).fileSuffix = h.cfg.fileSuffix.getD [] from rfl]
+    rw [translate_spec _ _ _ (by rw [hcfg]; exact hroot hf)]
+
+theorem confined_target (cfg : Cfg) (h : Handler) (hinit : initHandler cfg = .ok h) (ctx : Ctx) (q : Str)
+    (hroot : truthy cfg.file = false → AbsNormal (cfg.rootDir.getD []))
+    (hsfx : '/' ∉ cfg.fileSuffix.getD [] ∧ '\x00' ∉ cfg.fileSuffix.getD [])
+    (ht : targetFile h ctx = some q) :
+    (if (setupOf h).fileMode = true then q == (setupOf h).root else below (setupOf h).root q) = true := by
+  obtain ⟨dec, hmode, _⟩ := initHandler_ok cfg h hinit
+  have hcfg := dec.cfg_eq
+  cases hf : truthy cfg.file with
+  | true =>
+    have hd : h.dirMode = false := by
+      unfold Handler.dirMode; rw [hcfg]
+      cases hr : truthy cfg.rootDir <;> simp_all
+    simp only [targetFile, hd, Bool.false_eq_true, if_false] at ht
+    simp [setupOf, hcfg, hf]
+    rw [hcfg] at ht; rw [ht]; rfl
+  | false =>
+    have hd : h.dirMode = true := by
+      unfold Handler.dirMode; rw [hcfg]
+      cases hr : truthy cfg.rootDir <;> simp_all
+    simp only [targetFile, hd, if_true] at ht
+    have : (setupOf h).fileMode = false := by simp [setupOf, hcfg, hf]
+    simp only [this, Bool.false_eq_true, if_false]
+    have hr : (setupOf h).root = h.cfg.rootDir.getD [] := by simp [setupOf, hcfg, hf]
+    rw [hr]
+    rw [hcfg] at ht ⊢
+    exact below_of_translate _ _ _ _ (hroot hf) hsfx.1 hsfx.2 ht
+
+/-- **The confinement checker accepts every observation of the model**: for every
+    configuration the constructor accepts whose `root_dir` is an absolute normalised path
+    and whose `file_suffix` has no "/" or NUL, every environment, method and request, all four
+    clauses of `c04Check` hold for what the model does — every opened path lies below the root
+    (or is the configured file), it is the one target the specification computes from the
+    request, a served file is that regular file, an internal error only occurs when an
+    escaping data-source / transformation exception is configured, and unmatched,
+    unauthorised and not-permitted requests open nothing. -/
+theorem c04Check_model (cfg : Cfg) (h : Handler) (hinit : initHandler cfg = .ok h)
+    (env : Env) (method req : Str) (errorsConfigured : Bool)
+    (hroot : truthy cfg.file = false → AbsNormal (cfg.rootDir.getD []))
+    (hsfx : '/' ∉ cfg.fileSuffix.getD [] ∧ '\x00' ∉ cfg.fileSuffix.getD [])
+    (herr : (handleLookup h env (prepare h req)).result = none → errorsConfigured = true) :
+    (c04Check (setupOf h) env.fs errorsConfigured req (requestOn h env method req).seen).all = true := by
+  obtain ⟨dec, hmode, _⟩ := initHandler_ok cfg h hinit
+  have hcfg := dec.cfg_eq
+  have hrp : (setupOf h).requestPath = cfg.requestPath := by simp [setupOf, hcfg]
+  have hph : (setupOf h).placeholder = Vinegar.C06.phOf cfg := by simp [setupOf, Vinegar.C06.phOf, hcfg]
+  have hfm : (setupOf h).fileMode = truthy cfg.file := by simp [setupOf, hcfg]
+  have hacc : (prepare h req).isMatch
+      = accepts cfg.requestPath (Vinegar.C06.phOf cfg) (truthy cfg.file) ((setupOf h).request req) := by
+    rw [setup_request_eq, Bool.eq_iff_iff]
+    exact (Vinegar.C06.matches_iff cfg h hinit _).trans (accepts_iff _ _ _ _).symm
+  unfold accepts at hacc
+  cases hws : witnesses cfg.requestPath (Vinegar.C06.phOf cfg) (truthy cfg.file) ((setupOf h).request req) with
+  | nil =>
+    rw [hws] at hacc
+    simp only [List.isEmpty_nil, Bool.not_true] at hacc
+    unfold requestOn RequestObs.seen c04Check
+    simp [hacc, C04Verdict.all]
+  | cons v rest =>
+    rw [hws] at hacc
+    simp only [List.isEmpty_cons, Bool.not_false] at hacc
+    have htgt := allowedTarget_eq cfg h hinit req v rest (by rw [hrp, hph, hfm]; exact hws) hroot
+    unfold requestOn RequestObs.seen c04Check
+    simp only [hacc, if_true, htgt]
+    unfold handle
+    by_cases hmeth : (!h.cfg.tftp && !httpMethods.contains method) = true
+    · simp only [hmeth, if_true]
+      simp [C04Verdict.all]
+    · simp only [hmeth, Bool.false_eq_true, if_false]
+      rcases handleCore_cases h env (prepare h req) with ⟨hr, hc⟩ | ⟨_, _, _, _, hc⟩ | ⟨_, _, _, _, _, hc⟩ |
+        ⟨_, _, q, _, _, _, ht, _, hc⟩ | ⟨_, _, q, c, _, _, _, ht, ho, hc⟩
+      · rw [hc]; simp [C04Verdict.all, herr hr]
+      · rw [hc]; simp [C04Verdict.all]
+      · rw [hc]; simp [C04Verdict.all]
+      · rw [hc]
+        have hconf := confined_target cfg h hinit _ q hroot hsfx ht
+        simp [C04Verdict.all, ht, hconf]
+      · rw [hc]
+        have hconf := confined_target cfg h hinit _ q hroot hsfx ht
+        have hreg := (openPath_content_iff _ _ _).mp ho
+        simp [C04Verdict.all, ht, hconf, hreg]
+
+/-! ### sanity: the hypotheses are satisfiable, the known-bad behaviour is rejected -/
+
+example : AbsNormal "/srv/root".toList :=
+  ⟨["srv".toList, "root".toList], by simp, by decide, by decide⟩
+
+def exampleFs : Node :=
+  .dir [("srv".toList, .dir [("next.txt".toList, .file "NEXT".toList),
+    ("root".toList, .dir [("a.txt".toList, .file "A".toList)])])]
+
+example : translatePath "/srv/root".toList [] "/a.txt".toList = some "/srv/root/a.txt".toList := by decide
+example : translatePath "/srv/root".toList [] "/../next.txt".toList = none := by decide
+example : translatePath "/srv/root".toList [] "/b//c".toList = some "/srv/root/b/c".toList := by decide
+
+/-- D9: a path that continues below a regular file is ENOTDIR for `open`, and the (repaired)
+    outcome mapping makes it not-found; the checker rejects an internal error here -/
+example : openPath exampleFs "/srv/root/a.txt/more".toList = .enotdir := by decide
+example : regularFile exampleFs "/srv/root/a.txt/more".toList = none := by decide
+example : openPath exampleFs "/srv/root/a.txt".toList = .content "A".toList := by decide
 
 end Vinegar.C04
